@@ -301,3 +301,118 @@ func ZZ_C15_Codec() {
 		}
 	}
 }
+
+// ZZ_C15_Proto: the production configuration. Writer and reader use the real ProtoSerializer (its three methods
+// are executed; the protobuf runtime below them is the model of engine/protomodel.go, natively the real one), the
+// envelope crosses the real generated codec. A batch of 1..N messages, each one of: TestMessage with one data
+// byte, actor.PID as a payload, an empty TestMessage (zero bytes on the wire), a PID payload whose id is not valid
+// UTF-8 (proto.Marshal refuses it), a value that is not a protobuf message at all. The last two cannot be
+// serialised: they are dropped on their own, the node keeps running, the others arrive in order with their
+// payload, type and sender.
+func ZZ_C15_Proto() {
+	N := zzrt.Param("N")
+	za := actor.ZZNewEngine("node:A")
+	zb := actor.ZZNewEngine("node:B")
+	tids := []string{"t/0", "t/1"}
+	procs := []*actor.ZZRecProc{zb.Register(tids[0]), zb.Register(tids[1])}
+	pipe := &zzPipe{wire: true}
+	w := &streamWriter{writeToAddr: "node:B", engine: za.E, stream: pipe, rawconn: zzConn{}, serializer: ProtoSerializer{},
+		pid: actor.NewPID("node:A", "stream/node:B")}
+	r := &streamReader{remote: &Remote{engine: zb.E}, deserializer: ProtoSerializer{}}
+	snd := actor.NewPID("node:A", "s/0")
+
+	n := zzrt.Choose(N) + 1
+	type sentRec struct {
+		kind, target int
+		hasSender    bool
+	}
+	sent := make([]sentRec, n)
+	msgs := make([]actor.Envelope, n)
+	nonProto, badUTF8 := false, false
+	for i := 0; i < n; i++ {
+		s := sentRec{kind: zzrt.Choose(5), target: zzrt.Choose(2), hasSender: zzrt.Choose(2) == 1}
+		var m any
+		switch s.kind {
+		case 0:
+			m = &TestMessage{Data: []byte{byte(i)}}
+		case 1:
+			m = &actor.PID{Address: "p", ID: string(rune('0' + i))}
+		case 2:
+			m = &TestMessage{}
+			zzrt.Reach("zero-length-payload")
+		case 3:
+			m = &actor.PID{Address: "p", ID: "\xff"}
+			badUTF8 = true
+			zzrt.Reach("payload-that-proto-Marshal-refuses")
+		case 4:
+			m = "not a protobuf message"
+			nonProto = true
+			zzrt.Reach("payload-that-is-not-a-protobuf-message")
+		}
+		sent[i] = s
+		var sp *actor.PID
+		if s.hasSender {
+			sp = snd
+		}
+		msgs[i] = actor.Envelope{Msg: &streamDeliver{target: actor.NewPID("node:B", tids[s.target]), sender: sp, msg: m}}
+	}
+	escaped := false
+	func() {
+		defer func() {
+			if v := recover(); v != nil {
+				escaped = true
+			}
+		}()
+		w.Invoke(msgs)
+		if len(pipe.envs) > 0 {
+			r.Receive(pipe)
+		}
+	}()
+	if escaped {
+		if nonProto {
+			zzrt.Fail("C15:node-panics[payload-that-is-not-a-protobuf-message]")
+		}
+		zzrt.Fail("C15:node-panics")
+	}
+	for k, p := range procs {
+		j := 0
+		for i, s := range sent {
+			if s.target != k || s.kind >= 3 {
+				continue
+			}
+			if j >= len(p.Got) {
+				if nonProto || badUTF8 {
+					zzrt.Fail("C15:unserialisable-message-affects-rest-of-batch")
+				}
+				zzrt.Fail("C15:message-lost")
+			}
+			g := p.Got[j]
+			j++
+			ok := false
+			switch s.kind {
+			case 0:
+				m, is := g.Msg.(*TestMessage)
+				ok = is && len(m.Data) == 1 && m.Data[0] == byte(i)
+			case 1:
+				m, is := g.Msg.(*actor.PID)
+				ok = is && m.Address == "p" && m.ID == string(rune('0'+i))
+			case 2:
+				m, is := g.Msg.(*TestMessage)
+				ok = is && len(m.Data) == 0
+			}
+			zzrt.Assert(ok, "C15:payload-or-type-changed")
+			if s.hasSender {
+				zzrt.Assert(g.Sender != nil && g.Sender.Address == snd.Address && g.Sender.ID == snd.ID, "C15:sender-lost-or-changed")
+			} else {
+				zzrt.Assert(g.Sender == nil, "C15:message-without-sender-arrives-with-one")
+			}
+		}
+		if j < len(p.Got) {
+			if nonProto || badUTF8 {
+				zzrt.Fail("C15:unserialisable-message-delivered-or-something-in-its-place")
+			}
+			zzrt.Fail("C15:delivered-to-wrong-target-or-duplicated")
+		}
+	}
+	zzrt.Reach("batch-checked")
+}
